@@ -247,6 +247,7 @@ type e2eEnv struct {
 	hc                *hostCounter
 	tok               string
 	idn               int64
+	probeN            int64
 	rtPanics, rtFails int64
 }
 
@@ -261,6 +262,7 @@ type batch struct {
 	sibName  string // a second max-in-flight schema (requests for "sibpods" on main) whose name nearly collides with hot
 	sibMax   int32
 	noSib    bool
+	defName  bool // a user schema literally named "system-default" (limit 1, resource "defpods") and a policy without schema ("freepods")
 	rel      *releases
 	M        int32
 	violated bool
@@ -295,6 +297,9 @@ func (b *batch) object(hotCfg cfg, fillerMax int32) *proxyv1alpha1.UpstreamClust
 	if b.sibName != "" && !b.noSib {
 		pols = append(pols, mkS("sibpods", []string{b.main.URL}, b.sibName))
 	}
+	if b.defName {
+		pols = append(pols, mkS("defpods", []string{b.main.URL}, "system-default"), mkS("freepods", []string{b.main.URL}, ""))
+	}
 	pols = append(pols, bed.CatchAllPolicy([]string{b.main.URL}, hot))
 	var schemas []proxyv1alpha1.FlowControlSchema
 	switch hotCfg.Kind {
@@ -307,6 +312,9 @@ func (b *batch) object(hotCfg cfg, fillerMax int32) *proxyv1alpha1.UpstreamClust
 	}
 	if b.sibName != "" && !b.noSib {
 		schemas = append(schemas, mifSchema(b.sibName, b.sibMax))
+	}
+	if b.defName {
+		schemas = append(schemas, mifSchema("system-default", 1))
 	}
 	schemas = append(schemas, mifSchema(filler, fillerMax))
 	return bed.BuildCluster(bed.ClusterSpec{Name: b.host, Servers: servers, Disabled: map[string]bool{b.off.URL: true}, Policies: pols, Schemas: schemas})
@@ -452,11 +460,25 @@ func (b *batch) probe(limit int, held int, requireFill bool, sigTail string, wit
 		}
 		mine = append(mine, p)
 	}
-	extra := b.start("ok")
+	// the over-limit request is on the `events` resource every other time (the dispatcher's 429 has a variant for it)
+	res := "pods"
+	if atomic.AddInt64(&b.env.probeN, 1)%2 == 0 {
+		res = "events"
+	}
+	extra := b.startOn("ok", res)
 	o, ok := b.finish(extra)
 	if !ok {
 		b.env.r.Inconclusive("watchdog: the over-limit probe request got no answer")
 		return mine, false
+	}
+	// judge "forwarded" only when the probe's handler has returned (whatever it does after answering has then happened)
+	if !b.inflightIs(int64(limit)) {
+		b.env.r.Inconclusive("watchdog: the over-limit probe's handler did not return")
+		return mine, false
+	}
+	o.forwarded = b.seen(o.id)
+	if res == "events" {
+		sigTail += "/probe-on-events"
 	}
 	b.note("over-limit probe %s -> %d forwarded=%v", o.id, o.status, o.forwarded)
 	if o.forwarded || o.status != 429 {
@@ -494,8 +516,8 @@ func endToEnd(r *vkit.R) {
 
 	nEnd := count(r.Quick(), 90, 1500, 300)
 	scen := []string{"type-toggle-tokenBucket", "type-toggle-exempt", "admitted-as-tokenBucket", "delete-re-add", "resize-down", "resize-up", "noop-update",
-		"endpoint-removed", "near-collision-sibling"}
-	nScen := count(r.Quick(), 27, 360, 90)
+		"endpoint-removed", "near-collision-sibling", "schema-named-system-default"}
+	nScen := count(r.Quick(), 30, 400, 100)
 	r.Parallel(nEnd+nScen, 6, func(i int, g *vkit.Rand) {
 		b := &batch{env: env, host: fmt.Sprintf("c05e2e%d.test", i), rel: &releases{m: map[string]chan struct{}{}}}
 		b.main, b.off = bed.NewStub("main"), bed.NewStub("off")
@@ -523,6 +545,8 @@ func endToEnd(r *vkit.R) {
 				b.second = bed.NewStub("second")
 				defer b.second.Close()
 				b.second.SetResponder(responder(b.rel))
+			case "schema-named-system-default":
+				b.defName = true
 			case "near-collision-sibling":
 				nn := nearNames[round%len(nearNames)]
 				b.sibName, b.sibMax = nn.Name, 2
@@ -644,6 +668,10 @@ func endToEnd(r *vkit.R) {
 		}
 		if b.sibName != "" {
 			b.nearCollisionSibling(scenario, witness)
+			return
+		}
+		if b.defName {
+			b.schemaNamedSystemDefault(witness)
 			return
 		}
 
@@ -879,4 +907,66 @@ func (b *batch) nearCollisionSibling(scenario string, witness func() map[string]
 	b.releaseAll(mine)
 	r.Count("e2e_near_collision_scenarios", 1)
 	r.Distinct(vkit.Hash64("e2e-near", scenario))
+}
+
+// schemaNamedSystemDefault: a user schema literally named "system-default" (limit 1) is used by one policy; another policy
+// names no schema (exempt; the gateway REPORTS its flow control as "system-default"). Exhausting the user's schema must
+// not reject the schema-less policy's requests, and those must not take the schema's slot.
+func (b *batch) schemaNamedSystemDefault(witness func() map[string]interface{}) {
+	r := b.env.r
+	const tail = "scenario=schema-named-system-default"
+	A, admitted, ok := b.holdOn("defpods")
+	if !ok || !admitted {
+		r.Inconclusive("setup: first stream under the schema named system-default not admitted")
+		return
+	}
+	var free []*pending
+	for k := 0; k < 3; k++ {
+		p, admitted, ok := b.holdOn("freepods")
+		if !ok {
+			r.Inconclusive("watchdog: stream under the schema-less policy got no answer")
+			return
+		}
+		if !admitted {
+			b.violated = true
+			r.Violation("C05/e2e/isolation/unnamed-policy-refused/"+tail,
+				fmt.Sprintf("a policy that names no schema had stream number %d answered 429 while the user schema named \"system-default\" (limit 1) was exhausted by another policy", k+1), witness())
+			b.releaseAll(append(free, A))
+			return
+		}
+		free = append(free, p)
+	}
+	// the schema's own request finishes; the three schema-less streams stay in flight
+	if !b.releaseAll([]*pending{A}) || !b.inflightIs(3) {
+		r.Inconclusive("watchdog: stream did not finish")
+		return
+	}
+	B, admitted, ok := b.holdOn("defpods")
+	if !ok {
+		r.Inconclusive("watchdog: stream got no answer")
+		return
+	}
+	if !admitted {
+		b.violated = true
+		r.Violation("C05/e2e/isolation/unnamed-policy-consumes-slots/"+tail,
+			"with nothing of its own policy in flight (3 streams of a schema-less policy in flight) the user schema named \"system-default\" (limit 1) answered 429", witness())
+		b.releaseAll(free)
+		return
+	}
+	extra := b.startOn("ok", "defpods")
+	o, ok := b.finish(extra)
+	if !ok {
+		r.Inconclusive("watchdog: over-limit probe got no answer")
+		return
+	}
+	b.note("over-limit probe %s under the schema named system-default -> %d forwarded=%v", o.id, o.status, o.forwarded)
+	if o.forwarded || o.status != 429 {
+		b.violated = true
+		r.Violation("C05/e2e/admitted-over-limit/"+tail, fmt.Sprintf("limit 1 and 1 stream in flight under the schema named \"system-default\": one more request was answered %d (forwarded=%v)", o.status, o.forwarded), witness())
+	} else {
+		r.Count("e2e_quiescence_429_observed", 1)
+	}
+	b.releaseAll(append(free, B))
+	r.Count("e2e_default_name_scenarios", 1)
+	r.Distinct(vkit.Hash64("e2e-defname"))
 }
